@@ -2,8 +2,8 @@
 # Runs every registered quick check sequentially and prints a one-line summary per property.
 cd "$(dirname "$0")/.."
 tier=${1:-quick}
-for f in checks.d/C*.json; do
-  p=$(basename "$f" .json)
+for p in $(cat checks.d/enabled.txt); do
+
   s=$(date +%s)
   out=$(timeout 3600 bin/check.sh "$p" "$tier" 2>out/last_$p.err)
   rc=$?
